@@ -605,6 +605,22 @@ class Evaluator:
                 if hs:
                     env = dict(env)
                     self._fx(env, ("try-survives", tuple(sorted(hs))))
+                # compensation handlers (effects, then re-raise): what they do is recorded as an `on-failure` effect,
+                # evaluated in the state at the entry of the block (exact when the block's first effectful statement is
+                # the one that fails).  The ledger comparisons ignore it; the rollback-exactness rule reads it.
+                for h in st.handlers:
+                    if self._has_effects(h.body):
+                        he = dict(env)
+                        he["$fx"] = ()
+                        if h.name:
+                            he[h.name] = Rat.atom(("exc", h.name))
+                        try:
+                            houts = self.exec_block(list(h.body), [(frozenset(), he, None)], ctx)
+                            rec = tuple(sorted(((tuple(sorted(map(srepr, hc))), henv.get("$fx", ())) for hc, henv, hr in houts), key=srepr))
+                        except Unreadable:
+                            rec = ("unreadable",)
+                        env = dict(env)
+                        self._fx(env, ("on-failure", rec))
             out = self.exec_block(st.body, [(conds, env, None)], ctx)
             if st.orelse:
                 out = self.exec_block(st.orelse, out, ctx)
@@ -945,51 +961,109 @@ class Evaluator:
                         return True
         return False
 
-    def _generic_loop(self, kind_term, body, conds, env, lv_env, loop_names, ctx, test=None):
-        """A loop with loop-carried state, as a canonical one-iteration transfer relation.  Every variable of the
-        enclosing scope that the body rebinds (or a local list it appends to) enters the iteration as a symbolic
-        `carried` value (numbered in order of first store: independent of the variables' names); the body is evaluated
-        once; each path yields its guards, its effects, the new values of the carried variables and its exit (fall
-        through / continue / break / return).  The fingerprint (source, initial values, loop test, rows) names the loop;
-        after the loop each carried variable is `afterloop(fingerprint, k)`.  Two loops with equal fingerprints compute
-        the same function of the same inputs."""
-        stored = [n for n in self._stored_names(body) if n in env and n not in loop_names and not n.startswith("$") and not n.startswith("@")]
-        if test is not None:
-            # variables read by the loop test are part of the carried state when the body changes them (already covered)
-            pass
-        inner_env = dict(lv_env)
-        inits = []
-        for i, nm in enumerate(stored):
-            inits.append(as_term(env[nm]))
-            cv = Rat.atom(("carried", self._loop_depth, i))
-            if type(env[nm]) is Tup:
-                self._carried_lists.add(cv.key())
-            inner_env[nm] = cv
-        test_fp = None
-        if test is not None:
-            alts = self.cond_alts(test, inner_env, ctx)
-            test_fp = tuple(sorted((tuple(sorted(map(repr, c0))), tuple(sorted((t, tuple(sorted(map(repr, cc)))) for t, cc in cv_)))
-                                   for c0, cv_ in alts))
+    def _dead_on_entry(self, body, name: str) -> bool:
+        """Is `name` unconditionally (re)assigned at the top level of the body before anything reads it?"""
+        for st in body:
+            mentions = [n for n in ast.walk(st) if isinstance(n, ast.Name) and n.id == name]
+            if not mentions:
+                continue
+            if isinstance(st, (ast.Assign, ast.AnnAssign)) and st.value is not None:
+                tgs = st.targets if isinstance(st, ast.Assign) else [st.target]
+                if any(isinstance(t, ast.Name) and t.id == name for t in tgs) and not any(
+                        isinstance(n, ast.Name) and n.id == name for n in ast.walk(st.value)):
+                    return True
+            return False
+        return False
+
+    def _live_after(self, ctx, body, name: str) -> bool:
+        """Is `name` read anywhere in the function after the loop (textually)?"""
+        end = max((getattr(n, "end_lineno", 0) or 0) for st in body for n in ast.walk(st))
+        for n in ast.walk(ctx.f.node):
+            if isinstance(n, ast.Name) and n.id == name and isinstance(n.ctx, ast.Load) and getattr(n, "lineno", 0) > end:
+                return True
+        return False
+
+    def _loop_pass(self, body, inner_env, stored, ctx):
+        inner_env = dict(inner_env)
         inner_env["$fx"] = ()
         rec = Ctx(ctx.f, ctx.depth, ctx.selfcls, fx=True) if not ctx.fx else ctx
         was = self.effects_mode
-        # break / continue are path outcomes inside the block
-        self.effects_mode = True
+        self.effects_mode = True        # break / continue are path outcomes inside the block
         self._loop_depth += 1
         try:
             inner = self.exec_block(list(body), [(frozenset(), inner_env, None)], rec)
         finally:
             self.effects_mode = was
             self._loop_depth -= 1
+        return inner
+
+    def _generic_loop(self, kind_term, body, conds, env, lv_env, loop_names, ctx, test=None):
+        """A loop with loop-carried state, as a canonical one-iteration transfer relation.  Every variable of the
+        enclosing scope that the body rebinds (or a local list it appends to) enters the iteration as a symbolic
+        `carried` value; the body is evaluated once; each path yields its guards, its effects, the new values of the
+        carried variables and its exit (fall through / continue / break / return).  The fingerprint (source, initial
+        values, loop test, rows) names the loop; after the loop each carried variable is `afterloop(fingerprint, k)`.
+        Two loops with equal fingerprints compute the same function of the same inputs.
+
+        The numbering k of the carried variables is canonical: a first pass evaluates the body with the variables named,
+        ranks them by (initial value, updates) with the names anonymised and refined by the ranks of the variables they
+        mention (colour refinement), and a second pass evaluates the body with the ranks as identities - so neither the
+        names nor the order in which independent variables are updated matter.  Temporaries that are assigned before
+        they are read in every iteration and are not used after the loop are not loop state."""
+        import re as _re
+        stored = [n for n in self._stored_names(body) if n in env and n not in loop_names and not n.startswith("$") and not n.startswith("@")]
+        stored = [n for n in stored if not (self._dead_on_entry(body, n) and not self._live_after(ctx, body, n))]
+        depth = self._loop_depth
+
+        def entry_env(ident):
+            ie = dict(lv_env)
+            for nm in stored:
+                cv = Rat.atom(("carried", depth, ident(nm)))
+                if type(env[nm]) is Tup or self._is_carried_list(env[nm]):
+                    self._carried_lists.add(cv.key())
+                ie[nm] = cv
+            return ie
+
+        order = list(stored)
+        if len(stored) > 1:
+            # pass 1: named identities, then rank
+            ie = entry_env(lambda nm: "n:" + nm)
+            inner = self._loop_pass(body, ie, stored, ctx)
+            texts = {}
+            for nm in stored:
+                ups = []
+                for c, e, r in inner:
+                    if nm in e and not _same_value(ie[nm], e[nm]):
+                        ups.append(srepr(as_term(e[nm])) + " @ " + srepr(tuple(sorted(map(srepr, c)))))
+                texts[nm] = srepr(as_term(env[nm])) + " :: " + " | ".join(sorted(ups))
+            pat = _re.compile(r"n:([A-Za-z_][A-Za-z_0-9]*)")
+            rank = {nm: 0 for nm in stored}
+            for _ in range(len(stored) + 1):
+                sig = {nm: pat.sub(lambda m: f"#{rank.get(m.group(1), 'x')}", texts[nm]) for nm in stored}
+                classes = sorted(set(sig.values()))
+                new = {nm: classes.index(sig[nm]) for nm in stored}
+                if new == rank:
+                    break
+                rank = new
+            order = sorted(stored, key=lambda nm: (rank[nm], stored.index(nm)))
+        index = {nm: i for i, nm in enumerate(order)}
+        inner_env = entry_env(lambda nm: index[nm])
+        inits = [as_term(env[nm]) for nm in order]
+        test_fp = None
+        if test is not None:
+            alts = self.cond_alts(test, inner_env, ctx)
+            test_fp = tuple(sorted((tuple(sorted(map(srepr, c0))), tuple(sorted((t, tuple(sorted(map(srepr, cc)))) for t, cc in cv_)))
+                                   for c0, cv_ in alts))
+        inner = self._loop_pass(body, inner_env, stored, ctx)
         rows = []
         for c, e, r in inner:
             fx = e.get("$fx", ())
-            for i, nm in enumerate(stored):
+            for nm in order:
                 if nm in e and not _same_value(inner_env[nm], e[nm]):
-                    fx = fx + (("local", i, as_term(e[nm])),)
+                    fx = fx + (("local", index[nm], as_term(e[nm])),)
             rr = None if r is None or (isinstance(r, Lit) and r.v == "<continue>") else srepr(r)
             rows.append((frozenset(c), (fx, rr)))
-        # deterministic text: guards as sorted tuples, rows sorted (terms are compared through their repr)
+        # deterministic text: guards as sorted tuples, rows sorted (terms are compared through their text)
         rows = [(tuple(sorted(c, key=srepr)), p[0], p[1]) for c, p in _merge_rows(rows)]
         rows.sort(key=srepr)
         block = tuple(rows)
@@ -998,10 +1072,15 @@ class Evaluator:
         # what the carried variables become depends on the guards, on their updates and on the exits - not on the other
         # effects of the body (return values of effectful calls appear as atoms inside the updates)
         upd = tuple(sorted(((tuple(sorted(c, key=srepr)), p[0], p[1]) for c, p in _merge_rows(
-            [(frozenset(c), (tuple(x for x in fx if isinstance(x, tuple) and x and x[0] == "local"), rr)) for c, fx, rr in rows])), key=srepr))
-        for i, nm in enumerate(stored):
+            [(frozenset(c), (tuple(sorted((x for x in fx if isinstance(x, tuple) and x and x[0] == "local"), key=srepr)), rr))
+             for c, fx, rr in rows])), key=srepr))
+        for nm in order:
+            i = index[nm]
             if any(any(isinstance(x, tuple) and x and x[0] == "local" and x[1] == i for x in fx) for _, fx, _ in rows):
-                e2[nm] = Rat.atom(("afterloop", src, upd, i))
+                nv = Rat.atom(("afterloop", src, upd, i))
+                if type(env[nm]) is Tup or self._is_carried_list(env[nm]):
+                    self._carried_lists.add(nv.key())
+                e2[nm] = nv
         if self.effects_mode and ctx.fx:
             self._fx(e2, ("foreach", src, block))
         return [(conds, e2, None)]
@@ -1074,10 +1153,8 @@ class Evaluator:
         if isinstance(test, ast.BoolOp):
             # and: true iff all true; enumerate short-circuit prefixes
             parts = [self.cond_alts(v, env, ctx) for v in test.values]
-            for p in parts:
-                if len(p) != 1 or p[0][0]:
-                    raise Unreadable("piecewise operand in boolean condition")
-            parts = [p[0][1] for p in parts]
+            # a piecewise operand (an inlined helper with several arms) contributes its arm guards to each alternative
+            parts = [[(t, frozenset(c0) | cc) for c0, cv in p for t, cc in cv] for p in parts]
             is_and = isinstance(test.op, ast.And)
             res = []
 
@@ -1593,7 +1670,15 @@ class Evaluator:
                             return self.extern[f.qualname]
                         if f.name in self.opaque or f.qualname in self.opaque:
                             return Rat.atom(("prop", a, attr))
-                        return self.inline(f, b, ctx.selfcls or ctx.f.cls, [], {}, ctx, node, single=True)
+                        try:
+                            return self.inline(f, b, ctx.selfcls or ctx.f.cls, [], {}, ctx, node, single=True)
+                        except BudgetExceeded:
+                            raise
+                        except Unreadable:
+                            # a property getter outside the evaluator's language (memo-filling views) is summarised as
+                            # the opaque view `prop(self, name)`: which view is read still matters, how it is computed
+                            # is decided elsewhere (R-CACHE / the getter's own reference)
+                            return Rat.atom(("prop", a, attr))
                 return Rat.atom(("attr", a, attr))
             return Rat.atom(("attr", ("expr", b), attr))
         if isinstance(b, Obj):
